@@ -159,6 +159,11 @@ pub fn cfg_strategy() -> BoxedStrategy<PairCfg> {
         .boxed()
 }
 
+/// the pool's own minimum-liquidity constant (the statement gives no number), never below 1
+pub fn min_liq() -> u128 {
+    white_whale_std::pool_network::asset::MINIMUM_LIQUIDITY_AMOUNT.u128().max(1)
+}
+
 pub struct CpPoolHistory;
 
 pub fn resolve(a: &Amt, reserve: u128, balance: u128) -> u128 {
@@ -561,7 +566,7 @@ impl Check for CpPoolHistory {
             if first_deposit_done {
                 let locked = pw.lp_balance(&pw.pair);
                 ensure!(
-                    locked >= 1000 && after.total_share >= 1000,
+                    locked >= min_liq() && after.total_share >= min_liq(),
                     "step {step} ({op:?}): minimum-liquidity stake not locked: pair holds {locked} LP, supply {}",
                     after.total_share
                 );
